@@ -21,7 +21,17 @@ CFGS = [{"minOcc": o, "minVals": a, "maxVals": b, "allowed": al}
         for o in (1, 2, 3) for a in (2, 3) for b in (3, 4, 5) for al in ([], ["s3"])]
 
 
-def render(valid: dict, calls: dict, f: int, salt: int) -> tuple[str, dict]:
+def render(valid: dict, calls: dict, f: int, salt: int, ts: bool = False) -> tuple[str, dict]:
+    if ts:      # call tracking only (projects without validations): applyTone("loud");
+        lines = [f"// module {f} of project {salt}", ""]
+        where = {}
+        for g, (fname, vmap) in FUNCS.items():
+            camel = "".join(w.capitalize() if i else w for i, w in enumerate(fname.split("_")))
+            for vid in calls[g]:
+                where[len(lines) + 1] = ("func", g)
+                lines.append(f'{camel}("{vmap[vid]}");')
+        lines.append("")
+        return "\n".join(lines), where
     lines: list[str] = [f"# module {f} of project {salt}", ""]
     where: dict[int, tuple[str, str]] = {}
     k = 0
@@ -51,9 +61,12 @@ def job(j: dict) -> dict:
     (root / "pkg").mkdir()
     wheres = {}
     names = []
+    # projects made of calls only are rendered as TypeScript every other time (function-call tracking is documented
+    # for both languages; `x in (...)` validations are Python)
+    ts = j["salt"] % 2 == 1 and all(n == 0 for fv in j["valid"] for n in fv.values())
     for f in (1, 2, 3):
-        src, where = render(j["valid"][f - 1], j["calls"][f - 1], f, j["salt"])
-        name = f"pkg/mod_{'abc'[f - 1]}.py"
+        src, where = render(j["valid"][f - 1], j["calls"][f - 1], f, j["salt"], ts)
+        name = f"pkg/mod_{'abc'[f - 1]}." + ("ts" if ts else "py")
         (root / name).write_text(src)
         wheres[name] = (f, where)
         names.append(name)
@@ -85,13 +98,13 @@ def job(j: dict) -> dict:
                 funcs[(f, hit[1])] = funcs.get((f, hit[1]), 0) + 1
         runs.append({"cfg": cfg, "setObs": [{"f": f, "s": s, "n": n} for (f, s), n in sorted(sets.items())],
                      "funcObs": [{"f": f, "g": g, "n": n} for (f, g), n in sorted(funcs.items())], "stray": stray})
-    return {"runs": runs}
+    return {"runs": runs, "ts": ts}
 
 
 def run(chk) -> None:
     quick = chk.tier == "quick"
     drive.preload()
-    chk.rule = ("projects of three Python files: every layout of 0..2 (quick: 0..1) validations `if x in (...)` of three "
+    chk.rule = ("projects of three Python files (call-only projects every other time as TypeScript): every layout of 0..2 (quick: 0..1) validations `if x in (...)` of three "
                 "value sets (2, 3, 5 values) per file, every layout of calls of two functions with up to three values, "
                 "and validation layouts combined with one call layout (35 819 projects, quick 1 600), emitted by TLC; "
                 "each linted under 36 configurations (min_occurrences 1..3 x min_values 2..3 x max_values 3..5 x "
@@ -124,6 +137,7 @@ def run(chk) -> None:
                             "cfg": run_["cfg"], "setObs": run_["setObs"], "funcObs": run_["funcObs"],
                             "stray": len(run_["stray"])})
             meta.append((j, run_))
+    chk.extra["typescript_projects"] = sum(1 for r in results if r.ok and r.value.get("ts"))
     with_findings = sum(1 for r in records if r["setObs"] or r["funcObs"])
     chk.extra["records_with_findings"] = with_findings
     if with_findings * 5 < len(records):
